@@ -250,6 +250,25 @@ def run(ctx):
                 k2 = dict(k2, seed=0)
                 if fp(RG.quiet(f2, *a2, **k2)) != fp(r_):
                     ctx.violation('history:' + name, '%s: two calls with the integer seed 0 differ' % name, case={'call': name, 'seed': 0})
+            # results belong to the caller: after the caller overwrote every array of an earlier result in place, the same call
+            # must still give the first answer (no result may be a view of state that the library keeps between calls)
+            aliased = any(x_.size and y_.size and np.shares_memory(x_, y_) for x_ in RG.arrays(r_) for y_ in RG.arrays((a, k))
+                          if isinstance(x_, np.ndarray) and isinstance(y_, np.ndarray))       # documented pass-through helpers
+            if rep == 0 and name not in DEFAULTS and not aliased:
+                scribbled = 0
+                for arr in RG.arrays(r_):
+                    if isinstance(arr, np.ndarray) and arr.flags.writeable and arr.size and arr.dtype.kind in 'fiu':
+                        arr[...] = 77
+                        scribbled += 1
+                if scribbled:
+                    f3, a3, k3 = build(name)
+                    if 'seed' in k and 'seed' in k3:
+                        k3 = dict(k3, seed=k['seed']) if isinstance(k['seed'], int) else None
+                    if k3 is not None:
+                        r3 = RG.quiet(f3, *a3, **k3)
+                        fill3 = {kk: {x: y for x, y in vv.items() if x != 't'} for kk, vv in k3.items() if kk in RG.FILL_KEYS and isinstance(vv, dict)}
+                        if fp((r3, fill3)) != reps[0]:
+                            ctx.violation('history:' + name, '%s: after the caller overwrote the arrays of an earlier result, the same call returns something else' % name, case={'call': name})
             # repeated call on the SAME argument objects (deliberately filled dictionaries replaced by fresh ones)
             if rep == 0:
                 k_again = {kk: ({} if kk in RG.FILL_KEYS and isinstance(vv, dict) else vv) for kk, vv in k.items()}
